@@ -28,8 +28,8 @@ def rb(rng, n):
 
 def rnd_blob(rng, key=False):
     if key:
-        return rng.choice([rb(rng, 33), rb(rng, 32), b'\x02' + rb(rng, 32), rb(rng, 65), rb(rng, 5), rb(rng, 20)])
-    return rng.choice([rb(rng, 64), rb(rng, 71), rb(rng, 8), rb(rng, 5), rb(rng, 72), b'\x30' + rb(rng, 9)])
+        return rng.choice([rb(rng, 33), rb(rng, 32), b'\x02' + rb(rng, 32), rb(rng, 65), rb(rng, 5), rb(rng, 20), rb(rng, 1), rb(rng, rng.choice([127, 128, 255, 256, 500, 511, 512, 513, 519, 520]))])
+    return rng.choice([rb(rng, 64), rb(rng, 71), rb(rng, 8), rb(rng, 5), rb(rng, 72), b'\x30' + rb(rng, 9), rb(rng, 1), rb(rng, rng.choice([127, 128, 255, 256, 500, 511, 512, 513, 519, 520]))])
 
 
 def make_case(rng, cid):
